@@ -21,6 +21,10 @@ META = P.META | {"IsAbstract", "Symmetric"}
 def build_graph(scratch, name, files):
     from opcua_tools import UAGraph
     d = scratch.sub(name)
+    k = 0
+    while os.listdir(d):            # never mix two document sets in one directory
+        k += 1
+        d = scratch.sub("%s_%d" % (name, k))
     scratch.write(d, files, with_base=True)
     return UAGraph.from_path(d), d
 
